@@ -10,6 +10,10 @@ package main
 //   stopLeaveBeforeClose  in connection.stop: leaveFunc(...) is called before close(stopChan) and conn.Close()
 //   reissueSendBlocking   in connection.reader: the send on reissuePackChan is a plain (blocking) send
 //   msgSendBlocking       in connection.reader: the send on msgChan is a plain (blocking) send
+//   managerStartedOnce    exactly one `go ….sessionManager.run()` in the package, in the constructor New (one manager
+//                         goroutine owns the session table)
+//   writerNoSelfSend      no code reachable from connection.write (outside `go func` literals) sends on
+//                         activeMsgCompleteChan, the channel only the writer itself receives from
 //   stopDrainsAll         in connection.onStopEvent: the queue of not-yet-written commands is emptied by a
 //                         `for { select { case v := <-c.activeMsgChan: … default: return } }` loop
 
@@ -186,6 +190,76 @@ func doConcShape(repo, out string) error {
 			return true
 		})
 	}
+	// --- exactly one session-manager goroutine, started by the constructor
+	managerOnce := false
+	{
+		count, inNew := 0, false
+		for _, fn := range files {
+			if strings.HasSuffix(fn, "_test.go") {
+				continue
+			}
+			f, err := parser.ParseFile(fset, fn, nil, 0)
+			if err != nil {
+				return err
+			}
+			for _, d := range f.Decls {
+				fd, ok := d.(*ast.FuncDecl)
+				if !ok || fd.Body == nil {
+					continue
+				}
+				ast.Inspect(fd.Body, func(n ast.Node) bool {
+					if gs, ok := n.(*ast.GoStmt); ok && strings.HasSuffix(exprString(gs.Call.Fun), "sessionManager.run") {
+						count++
+						inNew = fd.Recv == nil && fd.Name.Name == "New"
+					}
+					return true
+				})
+			}
+		}
+		managerOnce = count == 1 && inNew
+	}
+	// --- the writer goroutine never sends on a channel that only it receives from (activeMsgCompleteChan):
+	// methods reachable from write() through c.<method>() calls, bodies of `go func` literals excluded
+	writerNoSelfSend := true
+	{
+		seen := map[string]bool{}
+		var walk func(name string)
+		walk = func(name string) {
+			if seen[name] {
+				return
+			}
+			seen[name] = true
+			fd := meth["connection."+name]
+			if fd == nil {
+				return
+			}
+			ast.Inspect(fd.Body, func(n ast.Node) bool {
+				switch x := n.(type) {
+				case *ast.GoStmt:
+					if _, ok := x.Call.Fun.(*ast.FuncLit); ok {
+						return false
+					}
+				case *ast.SendStmt:
+					if strings.HasSuffix(exprString(x.Chan), "activeMsgCompleteChan") {
+						writerNoSelfSend = false
+					}
+				case *ast.CallExpr:
+					if se, ok := x.Fun.(*ast.SelectorExpr); ok {
+						if id, ok := se.X.(*ast.Ident); ok && id.Name == "c" {
+							if _, isM := meth["connection."+se.Sel.Name]; isM {
+								walk(se.Sel.Name)
+							}
+						}
+					}
+				}
+				return true
+			})
+		}
+		walk("write")
+		if meth["connection.write"] == nil {
+			writerNoSelfSend = false
+		}
+	}
 	var sb strings.Builder
 	sb.WriteString("/-! GENERATED by /verif/harness/cmd/extract (concshape) from package service of /repo — do not edit.\nShape facts of the concurrent code that the transition-system models assume (see the extractor's header). -/\nnamespace JT.Gen\n")
 	fmt.Fprintf(&sb, "def managerOpsInClosure : Bool := %v\n", inClosure)
@@ -194,6 +268,8 @@ func doConcShape(repo, out string) error {
 	fmt.Fprintf(&sb, "def reissueSendBlocking : Bool := %v\n", reissue)
 	fmt.Fprintf(&sb, "def msgSendBlocking : Bool := %v\n", msgSend)
 	fmt.Fprintf(&sb, "def stopDrainsAll : Bool := %v\n", drains)
+	fmt.Fprintf(&sb, "def managerStartedOnce : Bool := %v\n", managerOnce)
+	fmt.Fprintf(&sb, "def writerNoSelfSend : Bool := %v\n", writerNoSelfSend)
 	sb.WriteString("end JT.Gen\n")
 	return writeIfChanged(filepath.Join(out, "ConcShape.lean"), sb.String())
 }
